@@ -624,15 +624,7 @@ def zip(
     def getfunction(inputs, depth):
         if depth_limit == depth or (
             depth_limit is None
-            and all(
-                x.purelist_depth == 1
-                or (
-                    x.purelist_depth == 2
-                    and x.purelist_parameter("__array__")
-                    in ("string", "bytestring", "categorical")
-                )
-                for x in inputs
-            )
+            and all(x.purelist_depth == 1 for x in inputs)
         ):
             return lambda: (
                 ak.layout.RecordArray(inputs, recordlookup, parameters=parameters),
